@@ -76,7 +76,7 @@ const (
 )
 
 var phaseNames = map[int]string{1: "preget", 2: "postget", 4: "preput", 7: "all"}
-var behNames = []string{"pass", "replace", "veto"}
+var behNames = []string{"pass", "replace", "veto", "replace+undelete", "replace+delete"}
 var flagNames = []string{"none", "secret", "crownjewel", "secret+crownjewel"}
 
 // the key under which the provider of the injected database refuses writes
@@ -161,9 +161,10 @@ type bounds struct {
 	ifaces           []int // writer/reader interfaces with the full put alphabet: index 0; others get one put each
 	allPhaseHook     bool
 	pushDeleted      bool
-	fullIfaces       []int // further interfaces that get the whole put/delete alphabet (index 0 of ifaces always does)
-	noNewHooks       bool  // family with hooks given by the seed only
-	putNew           bool  // PutNew next to Put (all flag values, set on the record itself)
+	fullIfaces       []int    // further interfaces that get the whole put/delete alphabet (index 0 of ifaces always does)
+	noNewHooks       bool     // family with hooks given by the seed only
+	hookKinds        [][2]int // if set: the (phase, behaviour) pairs of registerHook instead of the general ones
+	putNew           bool     // PutNew next to Put (all flag values, set on the record itself)
 }
 
 type witness struct {
@@ -353,9 +354,17 @@ func (m *model) putChain(x *expect, key string, cur entry) {
 		case 1:
 			cur = replaceTag(cur, "P", h.Obj)
 			x.replaced = true
+		case 3: // the replacement is a live record, whatever the mark of the record it was given
+			cur = replaceTag(cur, "P", h.Obj)
+			cur.Del = false
+			x.replaced = true
+		case 4: // the replacement is marked deleted
+			cur = replaceTag(cur, "P", h.Obj)
+			cur.Del = true
+			x.replaced = true
 		}
 	}
-	// storage
+	// storage: decided by the record the hooks returned
 	if m.cfg.Backend == "injected" {
 		if cur.Del {
 			x.res = "err" // injected storages do not implement Delete
@@ -591,7 +600,17 @@ func (m *model) enabled(b *bounds) []op {
 		out = append(out, op{Kind: "cancel", Ref: i})
 	}
 	// hooks
-	if len(m.hooks) < b.maxHooks && !b.noNewHooks {
+	if len(m.hooks) < b.maxHooks && !b.noNewHooks && b.hookKinds != nil {
+		for q := 0; q < b.nQ; q++ {
+			for _, k := range b.hookKinds {
+				out = append(out, op{Kind: "hook", Q: q, Phase: k[0], Beh: k[1]})
+			}
+		}
+		if len(m.hooks) > 0 {
+			out = append(out, op{Kind: "hookq", Ref: 0, Phase: phPrePut, Beh: 3})
+			out = append(out, op{Kind: "hooko", Ref: 0, Q: 3})
+		}
+	} else if len(m.hooks) < b.maxHooks && !b.noNewHooks {
 		for q := 0; q < b.nQ; q++ {
 			for _, ph := range []int{phPrePut, phPostGet, phPreGet} {
 				for beh := 0; beh < 3; beh++ {
@@ -691,9 +710,15 @@ func (h *hk) on(phase int, tag string, r record.Record) (record.Record, error) {
 	switch h.beh {
 	case 2:
 		return nil, hookErrs[h.id]
-	case 1:
+	case 1, 3, 4:
 		n := copyOf(r)
 		n.Tag += fmt.Sprintf("%s%d", tag, h.id)
+		if h.beh == 3 {
+			n.Meta().Deleted = 0
+		}
+		if h.beh == 4 {
+			n.Meta().Delete()
+		}
 		return n, nil
 	}
 	return r, nil
@@ -1277,6 +1302,16 @@ func runHistory(ctx *vlib.Ctx, cfg config, seedName string, hist []op, verbose b
 				res.bad = true
 				break
 			}
+			if x.replaced {
+				// a hook replaced the record: the operation must end as it does for the replacement
+				disc := "error-instead-of-ok"
+				if ob.err == nil {
+					disc = "ok-instead-of-error"
+				}
+				c.Violate("replacement-is-stored", o.Kind, disc, fmt.Sprintf("%v: with the record the hook returned the operation ends with %s, the implementation returned err=%v", where, x.res, ob.err), wit(step))
+				res.bad = true
+				break
+			}
 			// Outside this property (plain storage semantics, C02/C03): the reference store of this harness is out of step.
 			ctx.EngineError("reference store out of step with the implementation (not a C14 clause): %v: reference says %s, implementation returned err=%v", where, x.res, ob.err)
 			return runResult{bad: true, outcome: "engine-error"}
@@ -1569,7 +1604,22 @@ func plans(c *vlib.Ctx) []plan {
 	matrix.putNew = true
 	order := mk([]string{"a/1"}, 1, 1, 1, 1, 3, []int{0, 1}, false, false)
 	order.noNewHooks = true
+	// PrePut hooks whose replacement changes the deleted mark: what is stored, returned by a
+	// following get and delivered must follow the record the hook returned
+	mark := mk([]string{"a/1"}, 2, 2, 1, 1, 2, []int{0, 1}, false, false)
+	mark.hookKinds = [][2]int{{phPrePut, 3}, {phPrePut, 4}, {phPrePut, 1}, {phPrePut, 2}, {phPostGet, 1}}
+	markSeeds := []seed{
+		{"sub(a/,LI)", []op{{Kind: "sub", Q: 0, Priv: 0}}},
+		{"stored(a/1 V=1)+sub(a/,LI)", []op{{Kind: "put", Key: "a/1", V: 1}, {Kind: "sub", Q: 0, Priv: 0}}},
+		{"stored(a/1 V=1)+sub(a/ where V == 1,--)", []op{{Kind: "put", Key: "a/1", V: 1}, {Kind: "sub", Q: 1, Priv: 1}}},
+	}
+	markDepth := vlib.Pick(c, 4, 5)
 	fam := []plan{
+		{config{"hashmap", false}, markDepth, mark, "pre-put hook changes the deleted mark", markSeeds},
+		{config{"hashmap", true}, markDepth, mark, "pre-put hook changes the deleted mark", markSeeds},
+		{config{"bbolt", false}, 3, mark, "pre-put hook changes the deleted mark", markSeeds},
+		{config{"bbolt", true}, 3, mark, "pre-put hook changes the deleted mark", markSeeds},
+		{config{"injected", false}, 3, mark, "pre-put hook changes the deleted mark", markSeeds},
 		{config{"hashmap", false}, 2, matrix, "flags x privileges matrix", matrixSeeds()},
 		{config{"hashmap", true}, 2, matrix, "flags x privileges matrix", matrixSeeds()},
 		{config{"bbolt", true}, 2, matrix, "flags x privileges matrix", matrixSeeds()},
@@ -1626,6 +1676,7 @@ func main() {
 			"each history replayed on a fresh real database (hashmap, bbolt, runtime registry injected) and on a reference (lists of subscriptions and hooks, map of records); after every step feeds are drained, hook calls, result and raw storage compared; " +
 			"states de-duplicated on (reference state, controller's registered subscriptions and hooks, raw storage); deepest level check-only and without subscribe/registerHook as last step (nothing to observe); " +
 			"plus two dedicated families: the complete matrix flags {none,secret,crownjewel,both} x subscriber privileges {LI,L-,-I,--} x writers {LI, LI+AlwaysMakeSecret, LI+AlwaysMakeSecret+AlwaysMakeCrownjewel, PushUpdate} (depth 2 from four subscriptions), and every triple of 7 hook kinds registered on one prefix followed by cancelHook and a read or write (order of the remaining hooks); " +
+			"the family 'pre-put hook changes the deleted mark' (PrePut hooks that replace the record by a live one or by one marked deleted, besides replace/veto, on databases with and without shadow delete, depth 3-4 (thorough 3-5): storage, a following get and the feeds must follow the record the hook returned); " +
 			"and the family 'slow consumer' (one long history per backend and registration order: a never-read subscription and drained ones, cap(Feed)+2 alternating puts, delete, put, PushUpdate); " +
 			"non-trivial = histories whose last step delivered to a feed, called a hook, or cancelled a subscription or hook")
 		c.Assume("when several hooks are registered, each sees the record returned by the previous one (matching included); the harness's replacing hooks keep key, value and flags and only mark the record")
